@@ -23,6 +23,38 @@ pub struct Case {
     pub b: Adv,
     /// 0: A initiates, 1: B initiates
     pub initiator: u8,
+    /// entries with cipher ids this version does not know (a newer peer's list), inserted into the signed list of
+    /// the ping (`unknown_in` bit 0) and / or the pong (bit 1): (position in the list, cipher id >= 4, speed).
+    /// They are not common ciphers, so the outcome must be what it is without them.
+    #[serde(default)]
+    pub unknown: Vec<(u8, u8, f32)>,
+    #[serde(default)]
+    pub unknown_in: u8,
+}
+
+/// the same handshake message with extra cipher entries in its list, signed again with the sender's (trusted) key
+fn with_unknown_ciphers(bytes: &[u8], kp: &ring::signature::Ed25519KeyPair, extra: &[(u8, u8, f32)]) -> Option<Vec<u8>> {
+    use ring::signature::KeyPair;
+    use vpncloud::crypto::verif::InitMsg;
+    let mut pk = [0u8; 32];
+    pk.copy_from_slice(kp.public_key().as_ref());
+    let (msg, _) = InitMsg::verif_read_from(&bytes[1..], &[pk]).ok()?;
+    let (stage, hash, ecdh, algos, payload) = crate::props::c16::init_fields(&msg);
+    let (plain, list) = algos?;
+    let mut l: Vec<(u8, u32)> = list;
+    for (pos, id, speed) in extra {
+        let at = (*pos as usize).min(l.len());
+        l.insert(at, ((*id).max(4), speed.to_bits()));
+    }
+    if plain {
+        l.insert(0, (0, f32::INFINITY.to_bits()));
+    }
+    let d = crate::props::c16::InitDesc { stage, hash, ecdh: ecdh.unwrap_or_default(), algos: l, payload: payload.unwrap_or_default(), seed: [0; 32], unknown: vec![] };
+    let mut salt = [0u8; 4];
+    salt.copy_from_slice(&bytes[1..5]);
+    let mut out = vec![0xffu8];
+    out.extend_from_slice(&crate::props::c16::ref_encode_init(&d, kp, salt, false));
+    Some(out)
 }
 
 fn algo_of(id: u8) -> &'static ring::aead::Algorithm {
@@ -94,13 +126,29 @@ pub fn run_case(ctx: &Ctx, c: &Case) -> (Vec<Viol>, String) {
     let key = keypair_from_seed(3);
     let t = vec![pubkey(&key)];
     let ea = EndSpec { key: key.clone(), trusted: t.clone(), algos: to_algos(&c.a), id: 1 };
-    let eb = EndSpec { key, trusted: t, algos: to_algos(&c.b), id: 2 };
+    let eb = EndSpec { key: key.clone(), trusted: t, algos: to_algos(&c.b), id: 2 };
     let expected = negotiation_ref(&c.a, &c.b);
     let mut outcome = String::from("FAIL");
     let r = catch(|| {
         let mut sim = PairSim::new(&ea, &eb, None);
         let ini = (c.initiator % 2) as usize;
         sim.init(ini);
+        if !c.unknown.is_empty() {
+            // the ping and / or the pong carries cipher entries this version does not know
+            for stage_bit in [1u8, 2] {
+                if c.unknown_in & stage_bit != 0 {
+                    if let Some(last) = sim.inflight.last_mut() {
+                        if let Some(b) = with_unknown_ciphers(&last.1, &key, &c.unknown) {
+                            last.1 = b;
+                            ctx.class(if stage_bit == 1 { "negotiation:ping-with-unknown-cipher-ids" } else { "negotiation:pong-with-unknown-cipher-ids" });
+                        }
+                    }
+                }
+                if !sim.inflight.is_empty() {
+                    sim.deliver(0);
+                }
+            }
+        }
         sim.settle();
         (sim.ends[0].is_ready(), sim.ends[1].is_ready(), sim.completed, sim.ends[0].algorithm_name(), sim.ends[1].algorithm_name(), sim.events)
     });
@@ -233,6 +281,8 @@ pub fn run(ctx: &Ctx) {
                         a: Adv { plain: *pa, list: oa.iter().map(|id| (*id, sa[*id as usize - 1])).collect() },
                         b: Adv { plain: *pb, list: ob.iter().map(|id| (*id, sb[*id as usize - 1])).collect() },
                         initiator: ini,
+                        unknown: vec![],
+                        unknown_in: 0,
                     };
                     let (v, outcome) = run_case(ctx, &c);
                     total.fetch_add(1, std::sync::atomic::Ordering::Relaxed);
@@ -291,7 +341,7 @@ pub fn run(ctx: &Ctx) {
             (adv(), adv(), 0u8..2, any::<bool>())
         },
         |(a, b, ini, reversed)| {
-            let c = Case { a: a.clone(), b: b.clone(), initiator: *ini };
+            let c = Case { a: a.clone(), b: b.clone(), initiator: *ini, unknown: vec![], unknown_in: 0 };
             let (mut v, o1) = run_case(ctx, &c);
             // metamorphic partner: reversed list orders, other initiator
             if v.is_empty() && *reversed {
@@ -299,7 +349,7 @@ pub fn run(ctx: &Ctx) {
                 a2.list.reverse();
                 let mut b2 = b.clone();
                 b2.list.reverse();
-                let c2 = Case { a: a2, b: b2, initiator: 1 - *ini };
+                let c2 = Case { a: a2, b: b2, initiator: 1 - *ini, unknown: vec![], unknown_in: 0 };
                 let (v2, o2) = run_case(ctx, &c2);
                 v.extend(v2);
                 if v.is_empty() && o1 != o2 {
@@ -315,6 +365,38 @@ pub fn run(ctx: &Ctx) {
         },
     );
     ctx.subspace("proptest advertisements: speeds from the grid {0,1e-3,1,100,1e9,f32::MAX} or rounded random values, + reversed partner", n as u64, false);
+
+    // a newer peer: its signed list also holds cipher ids this version does not know - all subset pairs x positions of
+    // the unknown entries x {ping, pong, both}; the outcome must be the one the known entries give
+    {
+        let mut cases = vec![];
+        let (sa, sb) = &patterns[0];
+        for (pa, la) in &subs {
+            for (pb, lb) in &subs {
+                for (k, unknown) in [vec![(0u8, 4u8, 900.0f32)], vec![(9, 7, 0.0)], vec![(1, 200, 1e9), (0, 255, 3.0)], vec![(1, 5, f32::MAX)]].into_iter().enumerate() {
+                    for unknown_in in 1..=3u8 {
+                        if ctx.quick() && (k as u8 + unknown_in) % 2 == 0 {
+                            continue;
+                        }
+                        cases.push(Case {
+                            a: Adv { plain: *pa, list: la.iter().map(|id| (*id, sa[*id as usize - 1])).collect() },
+                            b: Adv { plain: *pb, list: lb.iter().rev().map(|id| (*id, sb[*id as usize - 1])).collect() },
+                            initiator: (k % 2) as u8,
+                            unknown: unknown.clone(),
+                            unknown_in,
+                        });
+                    }
+                }
+            }
+        }
+        let nc = cases.len() as u64;
+        ctx.par_items(&cases, |_, c| {
+            let (v, _) = run_case(ctx, c);
+            ctx.report(v);
+        });
+        ctx.sample("unknown-cipher-ids", || serde_json::to_value(&cases[cases.len() / 3]).unwrap());
+        ctx.subspace("lists that also hold unknown cipher ids (newer peer), re-signed with the trusted key: 16 x 16 subset pairs x 4 placements x {ping, pong, both}", nc, !ctx.quick());
+    }
 
     // configuration names
     let names: [(&str, Option<u8>); 14] = [
